@@ -30,15 +30,15 @@ fn observe<T>(what: &str, len: usize, f: impl FnOnce() -> T) -> Result<T, Fail> 
 }
 
 fn exercise_record(what: &str, rec: &Record, n: usize) -> Check {
-    observe(&format!("{}::data", what), n, || rec.data().len())?;
-    observe(&format!("{}::compressed", what), n, || rec.compressed())?;
-    observe(&format!("{}::messages", what), n, || rec.messages().map(|m| m.len()))?;
-    observe(&format!("{}::fmt", what), n, || format!("{:?}", rec))?;
+    let _ = observe(&format!("{}::data", what), n, || rec.data().len())?;
+    let _ = observe(&format!("{}::compressed", what), n, || rec.compressed())?;
+    let _ = observe(&format!("{}::messages", what), n, || rec.messages().map(|m| m.len()))?;
+    let _ = observe(&format!("{}::fmt", what), n, || format!("{:?}", rec))?;
     let d = observe(&format!("{}::decompress", what), n, || rec.decompress())?;
     if let Ok(inner) = d {
-        observe(&format!("{}::decompress::messages", what), n, || inner.messages().map(|m| m.len()))?;
-        observe(&format!("{}::decompress::fmt", what), n, || format!("{:?}", inner))?;
-        observe(&format!("{}::decompress::compressed", what), n, || inner.compressed())?;
+        let _ = observe(&format!("{}::decompress::messages", what), n, || inner.messages().map(|m| m.len()))?;
+        let _ = observe(&format!("{}::decompress::fmt", what), n, || format!("{:?}", inner))?;
+        let _ = observe(&format!("{}::decompress::compressed", what), n, || inner.compressed())?;
     }
     Ok(())
 }
@@ -48,8 +48,8 @@ pub fn check_bytes(b: &[u8]) -> Check {
     let n = b.len();
     // as a volume file
     let file = observe("File::new", n, || File::new(b.to_vec()))?;
-    observe("File::data", n, || file.data().len())?;
-    observe("File::header", n, || file.header().map(|h| format!("{:?}", h)))?;
+    let _ = observe("File::data", n, || file.data().len())?;
+    let _ = observe("File::header", n, || file.header().map(|h| format!("{:?}", h)))?;
     let records = observe("File::records", n, || file.records())?;
     // no record extends past the data: the records are consecutive slices of the bytes after the header
     let mut total = 0usize;
@@ -67,20 +67,20 @@ pub fn check_bytes(b: &[u8]) -> Check {
     for r in records.iter().take(64) {
         exercise_record("File::records[i]", r, n)?;
     }
-    observe("File::fmt", n, || format!("{:?}", file))?;
-    observe("File::scan", n, || file.scan().map(|s| s.sweeps().len()))?;
+    let _ = observe("File::fmt", n, || format!("{:?}", file))?;
+    let _ = observe("File::scan", n, || file.scan().map(|s| s.sweeps().len()))?;
     // as an LDM record
     exercise_record("Record::new", &Record::new(b.to_vec()), n)?;
     exercise_record("Record::from_slice", &Record::from_slice(b), n)?;
     // as a real-time chunk
     let chunk = observe("Chunk::new", n, || Chunk::new(b.to_vec()))?;
     if let Ok(chunk) = chunk {
-        observe("Chunk::data", n, || chunk.data().len())?;
-        observe("Chunk::fmt", n, || format!("{:?}", chunk))?;
+        let _ = observe("Chunk::data", n, || chunk.data().len())?;
+        let _ = observe("Chunk::fmt", n, || format!("{:?}", chunk))?;
         match &chunk {
             Chunk::Start(f) => {
-                observe("Chunk::Start::records", n, || f.records().len())?;
-                observe("Chunk::Start::scan", n, || f.scan().map(|_| ()))?;
+                let _ = observe("Chunk::Start::records", n, || f.records().len())?;
+                let _ = observe("Chunk::Start::scan", n, || f.scan().map(|_| ()))?;
             }
             Chunk::IntermediateOrEnd(r) => exercise_record("Chunk::IntermediateOrEnd", r, n)?,
         }
